@@ -3,7 +3,7 @@
    Depends on the model file only, so that it still extracts when a proof breaks. *)
 From Coq Require Import List ZArith Extraction ExtrOcamlBasic.
 From LMBase Require Import Res ListX IEEE.
-From LMDisc Require Import DiscModel.
+From LMDisc Require Import DiscModel DiscImplCheck.
 
 Definition f_of_bits : Z -> F32.t := F32.of_bits.
 Definition f_to_bits : F32.t -> Z := F32.to_bits.
@@ -16,6 +16,8 @@ Definition f_unscale_with := @unscale_with F32.t f32_ops.
 Definition f_real_score := @real_score F32.t f32_ops.
 Definition f_first_bad := @first_bad F32.t f32_ops.
 Definition f_check_C08 := @check_C08 F32.t f32_ops.
+Definition f_first_bad_impl := @first_bad_impl F32.t f32_ops.
+Definition f_check_C08_impl := @check_C08_impl F32.t f32_ops.
 Definition f_d_data := @d_data F32.t.
 Definition f_d_factor := @d_factor F32.t.
 Definition f_d_offsets := @d_offsets F32.t.
@@ -27,7 +29,7 @@ Definition z_sc_index := @sc_index Z.
 Extraction Language OCaml.
 Extraction "disc_model.ml"
   f_of_bits f_to_bits f_is_finite f_to_discrete f_min_score f_max_score f_scale_with f_unscale_with
-  f_real_score f_first_bad f_check_C08 f_d_data f_d_factor f_d_offsets f_d_offset
+  f_real_score f_first_bad f_check_C08 f_first_bad_impl f_check_C08_impl f32_le f_d_data f_d_factor f_d_offsets f_d_offset
   z_sc_rows z_sc_max z_sc_index
   disc_score score_u8 score_rows_dispatch score_rows_avx2 striped configure_wrap_of
-  well_conditioned cond_bound cond_A.
+  well_conditioned cond_bound cond_A factor_sign_clear.
